@@ -45,7 +45,7 @@ def cases(ctx):
 
     for j in range(120 if ctx.quick else 2500):
         r = ctx.rng("C15g3", j)
-        c = gen.rand_circuit(r, n_in=r.randint(1, 4), n_gates=r.randint(1, 9), max_fanin=4, consts=0.4, out_is_input=0.3)
+        c = gen.rand_circuit(r, n_in=r.randint(1, 4), n_gates=r.randint(1, 9), max_fanin=4, consts=0.4, out_is_input=0.3, loaded_in_out=0.15)
         if r.random() < 0.2:
             c.graph.add_node("kout", type=r.choice(["0", "1"]), output=True)
         yield {"op": "roundtrip", "c": proj(c), "src": "G3"}
